@@ -300,6 +300,34 @@ CLAIMED["C05"] = dict(
          "relabelled and U(2)-rotated random Hermitian systems.",
     note=TB + "; external DFT contract as in C02")
 
+CLAIMED["C08"] = dict(
+    text="Decided by contracts (real text, per shape / exhaustive over the tables): get_transform_TR / get_transform_Inv (every k-derivative flips "
+         "both parities; Hamiltonian even/even, spin / curvature-like / orbital-like matrices TR-odd and inversion-even; gauge-dependent matrices "
+         "without parity; unknown names refused); Data_K.covariant hands each (name, derivative order) its table entry, the generalised "
+         "derivative one more order, the velocity odd/odd; Transform.__call__ (permutation, conjugation, sign) and TransformProduct on symbolic "
+         "tensors; Tabulator.__call__ forwards the formula's declarations; the constructors of 12 formula classes assign parity(base quantity) x "
+         "(-1)^(number of k-derivatives). The statement itself -- value at -k equals the declared transformation of the value at k -- needs "
+         "eigen-decompositions at two k-points of a symmetric model and is covered by a bounded stand-in only: installed Data_K_R with 9 "
+         "tabulators (energy ... second derivative of the Berry curvature, internal / external terms) and JDOS / optical conductivity / shift "
+         "current / injection current at random +-k of random time-reversal symmetric (real H(R), A(R)) and inversion-symmetric (H(-R)=H(R), "
+         "A(-R)=-A(R)) 3-band models. Spin and orbital-moment formulas (need SS / BB / CC of a symmetric model) are covered by the bookkeeping "
+         "units only.",
+    note=TB + "; physics of the base quantities assumed (curvature, spin, orbital moment: TR-odd, inversion-even); symmetric random models as constructed in contracts/C08.py")
+
+CLAIMED["C07"] = dict(
+    text="Chain of contracts: irreducible K-points with factor |orbit|/N (C06), action of an operation on a tensor (C09), declared parities "
+         "(C08), result.transform distributes over + (C16), grid collection of images (C30). Decided here: PointGroup.symmetrize (real text) "
+         "is the average of result.transform(g) over ALL operations, each exactly once (groups of 1, 2, 6 operations, symbolic results); "
+         "run()'s nested paralfunc symmetrises the ResultDict of all calculators with the SYSTEM's point group exactly when symmetrize=True; "
+         "orbit lemma on the installed Grid.get_K_list(use_symmetry=True) / PointGroup with the extracted symmetrize / transform_tensor and an "
+         "equivariant SYMBOLIC field (value at g.K = T_g of a free tensor averaged over the stabiliser): sum_K factor_K symmetrize(R_K) equals "
+         "the mean over the full grid for every field value, every coefficient to 1e-12 -- C4z on 4x4x2, Inversion x TR*C2x on 2x3x2 (quick), "
+         "C3z + TR with a rank-2 tensor on a hexagonal 3x3x1 grid (thorough), orbits tile the grid, non-vacuity. The premise 'the system "
+         "genuinely has the symmetry' (result at g.K = T_g result at K) is the property's hypothesis. Bounded stand-in: installed run() with "
+         "use_irred_kpt + symmetrize against the full unsymmetrised run on Haldane (C3z), the chiral model (C3z, thorough) and random "
+         "time-reversal / inversion symmetric models: CumDOS, AHC, Ohmic, Berry dipole, optical conductivity and grid tabulation per k.",
+    note=TB + "; rotation matrices are floats (coefficients compared to 1e-12); PointGroup construction and get_K_list run as installed code on concrete input")
+
 NOT_APPLICABLE = {
     "C20": "real-space symmetrisation is a data-dependent floating-point orbit search over irrep objects; its postcondition is only statable through an eigen-solver, no discrete/algebraic kernel is left once externals are abstracted (DESIGN section 7)",
     "C21": "rotation matrices are produced inside sympy (polynomial expansion + evalf); orthogonality/composition live in that CAS computation, outside any contract this engine can generate VCs for (DESIGN section 7)",
